@@ -324,7 +324,7 @@ FIXED = [
 
 def skip_family():
     """the doubt about a skipped declaration must reach the first use whatever stands in between: goto placement x declaration
-    before/after the goto x what stands between the label and the use x where the use stands (320 bodies, verdict by the oracle)"""
+    before/after the goto x what stands between the label and the use x where the use stands (400 bodies, verdict by the oracle)"""
     one = [('lit', '1')]
     bump = ('assign', 'acc', [('name', 'acc'), ('lit', '1')])
     gotos = {
@@ -332,6 +332,7 @@ def skip_family():
         'nested block': [('block', [('ifgoto', 'p0', 1, 'l1')])],
         'doubly nested block': [('block', [bump, ('block', [('ifgoto', 'p0', 1, 'l1')])])],
         'closing goto of an if-block': [('if', 'p1', 2, [bump, ('goto', 'l1')], None)],
+        'nested block that has a local of the same name': [('block', [('decl', 'v0', one, 903), ('ifgoto', 'p0', 1, 'l1'), ('assign', 'acc', [('name', 'v0')])])],
     }
     interludes = {
         'nothing': [],
